@@ -172,13 +172,14 @@ STATUSES = ("shouldrun", "submitted", "running", "completed", "failed", "cancell
 
 
 class Project:
+    base_mtime = BASE_MTIME  # mtime of tick 0; ticks are 10 s apart (instances may override)
+
     def __init__(self, desc, backend="slurm", config=None, first_id=1001, subdirs=()):
         base = "/dev/shm" if os.path.isdir("/dev/shm") else None
         self.dir = os.path.realpath(tempfile.mkdtemp(prefix="gwfproj", dir=base))
         self.backend = backend
         self.sim = simsched.SimCluster(backend, first_id=first_id) if backend in ("slurm", "sge", "lsf") else None
         self.tick = 0
-        self.base_mtime = BASE_MTIME  # mtime of tick 0; ticks are 10 s apart
         self.desc = None
         self._server = None
         with open(os.path.join(self.dir, "workflow.py"), "w") as f:
